@@ -408,4 +408,67 @@ func TestC05(t *testing.T) {
 		Cases: hx.Pick(500, 80000),
 		Gen:   c05Gen, Run: c05Run,
 	}.Execute(t)
+	if t.Failed() {
+		return
+	}
+	// the counted "links" of a step may be sublayout summaries: they must agree just the same
+	hx.Check[c08Case]{
+		Property: "C05", Part: "sublayout-summaries",
+		Rule:  "nested supply chains (builder of C08) in which the evidence of a step with 2-3 functionaries are sublayouts: either all functionaries deliver the same products, or one functionary's chain - consistent in itself, validly signed - delivers other products; accept iff the summaries agree; non-trivial = a step whose functionaries' summaries differ; distinct by case JSON",
+		Cases: hx.Pick(150, 20000),
+		Gen: func(t *rapid.T) c08Case {
+			c := c08Gen(t)
+			clearDefects(&c.Root)
+			c.Evil, c.ParentMismatch, c.ParentForbids = false, false, false
+			if rapid.IntRange(0, 3).Draw(t, "disagree") > 0 {
+				var sites [][]int
+				var walk func(lv *c08Level, prefix []int)
+				walk = func(lv *c08Level, prefix []int) {
+					for i := range lv.Steps {
+						p := append(append([]int{}, prefix...), i)
+						if lv.Steps[i].Sub != nil {
+							if len(lv.Steps[i].Functionaries) > 1 {
+								sites = append(sites, p)
+							}
+							walk(lv.Steps[i].Sub, p)
+						}
+					}
+				}
+				walk(&c.Root, nil)
+				if len(sites) > 0 {
+					st := c08StepAt(&c.Root, sites[rapid.IntRange(0, len(sites)-1).Draw(t, "site")])
+					st.Defect = "sub-disagree"
+					st.DefectAt = rapid.IntRange(0, len(st.Functionaries)-1).Draw(t, "dissenter")
+				}
+			}
+			return c
+		},
+		Run: func(c c08Case, r *hx.Rec) error {
+			inner := &hx.Rec{}
+			err := c08Run(c, inner)
+			disagree := false
+			for _, l := range inner.Labels() {
+				if l == "defect=sub-disagree" {
+					disagree = true
+				}
+			}
+			r.Label("summaries-disagree=%v", disagree)
+			if inner.WasUnasserted() {
+				r.Unasserted()
+			}
+			if disagree {
+				r.Nontrivial()
+			}
+			return err
+		},
+	}.Execute(t)
+}
+
+func clearDefects(lv *c08Level) {
+	for i := range lv.Steps {
+		lv.Steps[i].Defect = ""
+		if lv.Steps[i].Sub != nil {
+			clearDefects(lv.Steps[i].Sub)
+		}
+	}
 }
